@@ -4,7 +4,7 @@ Real code on a bounded skeleton: 3 boxes over 2 interleaved files, symbolic offs
 import ast
 import z3
 from pyvc.vals import *  # noqa
-from pyvc.task import FragmentTask
+from pyvc.task import FragmentTask, Task
 from pyvc.vc import veq
 
 TA = "amr_kitchen.taste.taste.Taster."
@@ -71,8 +71,70 @@ class WorkerInput(FragmentTask):
         ctx.oblige("post.file-field-count-level", zand(compare(ex, "Eq", m.get("bfile"), self.which), veq(ctx, m.get("nfields"), 2), veq(ctx, m.get("lv"), 0)), "P")
 
 
+class ResultsConsumed(Task):
+    """The WHOLE method taste_binary_headers / taste_binary_shape on a skeleton (two levels; level 0: 3 boxes over 2 interleaved
+    files, level 1: one box), the two workers replaced by their interface 'returns None or a message' (each outcome a path):
+    for every verbosity, every level <= limit and every distinct binary file exactly one worker call is made with that file's
+    task, and a message returned by ANY of them reaches raise_error (isgood cleared; raised iff failing mode) - a worker
+    verdict is never dropped; without a message the method returns normally and isgood is untouched."""
+    reach = "S"
+    inline = (TA + "raise_error",)
+
+    def __init__(self, prop, method, limit):
+        self.prop, self.method, self.limit = prop, method, limit
+        self.qual = TA + method
+        self.name = f"{method}.every-worker-verdict-consumed[limit={limit}]"
+
+    def functions(self):
+        return [self.qual, TA + "raise_error"]
+
+    def setup(self, ex):
+        ctx = ex.ctx
+        gh = {"calls": [], "bad": False}
+        off = [z3.Int(f"off{i}") for i in range(3)]
+        ctx.assume(z3.And(z3.Distinct(*off), *[x >= 0 for x in off]))
+        ILO, IHI = z3.Function("ILO", I, I, I), z3.Function("IHI", I, I, I)
+        indexes = [[[ILO(i, d) for d in range(3)], [IHI(i, d) for d in range(3)]] for i in range(3)]
+        lv1 = {"files": ["p/Level_1/Cell_D_00000"], "offsets": [z3.Int("off_l1")], "indexes": [[[ILO(9, d) for d in range(3)], [IHI(9, d) for d in range(3)]]]}
+        v = z3.Int("verbosity")
+        fob = z3.Bool("fail_on_bad")
+        worker = "mp_fun_headers" if self.method == "taste_binary_headers" else "mp_fun_shape"
+
+        def wk(ex_, args, kw):
+            m = args[0]
+            gh["calls"].append((str(m.get("bfile")), m.get("lv")))
+            if ex_.ctx.choose(2) == 0:
+                return None
+            gh["bad"] = True
+            return "message of the worker"
+        self.contracts = {"amr_kitchen.taste.taste." + worker: wk}
+        pool = Record("Pool")
+        pool.held = True
+        self_ = Record("amr_kitchen.taste.taste.Taster", cells=[{"files": list(FILES), "offsets": list(off), "indexes": indexes}, lv1],
+                       fields={"a": 0, "b": 1}, v=v, limit_level=self.limit, isgood=True, fail_on_bad=fob, pool=pool, ndims=3)
+        return {"self": self_, "args": [], "gh": gh, "fob": fob}
+
+    def post(self, ex, inp, out):
+        ctx = ex.ctx
+        gh, self_ = inp["gh"], inp["self"]
+        want = sorted([(f, 0) for f in set(FILES)] + ([("p/Level_1/Cell_D_00000", 1)] if self.limit >= 1 else []))
+        if out.kind == "ret":
+            got = sorted((f, lv if isinstance(lv, int) else -1) for f, lv in gh["calls"])
+            ctx.oblige("post.one-worker-call-per-binary-file-of-every-validated-level", got == want, "P", note=f"{got} vs {want}")
+        if gh["bad"]:
+            ctx.oblige("sound.a-worker-message-clears-isgood", self_.attrs.get("isgood") is False, "P")
+            if out.kind == "exc":
+                ctx.oblige("sound.raises-only-in-failing-mode", zand(inp["fob"], out.exc.etype == "TastesBadError"), "P", note=str(out.exc))
+            else:
+                ctx.oblige("sound.returns-only-in-non-failing-mode", z3.Not(inp["fob"]), "P")
+        else:
+            ctx.oblige("complete.no-message-returns-normally", out.kind == "ret", "P", note=str(out.exc) if out.kind != "ret" else "")
+            ctx.oblige("complete.no-message-leaves-isgood", self_.attrs.get("isgood") is True, "P")
+
+
 def parent_tasks(prop):
-    return [WorkerInput(prop, meth, f) for meth in ("taste_binary_headers", "taste_binary_shape") for f in (FILES[0], FILES[1])]
+    return [WorkerInput(prop, meth, f) for meth in ("taste_binary_headers", "taste_binary_shape") for f in (FILES[0], FILES[1])] + \
+        [ResultsConsumed(prop, meth, lim) for meth in ("taste_binary_headers", "taste_binary_shape") for lim in (0, 1)]
 
 
 def parent_canaries():
@@ -83,7 +145,11 @@ def parent_canaries():
             ("taste_binary_headers: offsets left unsorted",
              [(f, "                box_ids = box_ids[np.argsort(offsets)]\n                offsets = np.sort(offsets)\n                mp_in = {'bfile':bfile,\n                         'offsets':offsets,",
                "                box_ids = box_ids[np.argsort(offsets)]\n                mp_in = {'bfile':bfile,\n                         'offsets':offsets,")],
-             ["taste_binary_headers.task-of-binary-file[Cell_D_00001]"])]
+             ["taste_binary_headers.task-of-binary-file[Cell_D_00001]"]),
+            ("taste_binary_shape: a worker's message is only passed on in verbose mode",
+             [(f, "            for mp_out in self.pool.imap(mp_fun_shape, mp_inputs):\n                if mp_out is not None:",
+               "            for mp_out in self.pool.imap(mp_fun_shape, mp_inputs):\n                if mp_out is not None and self.v > 0:")],
+             ["taste_binary_shape.every-worker-verdict-consumed[limit=0]"])]
 
 
 def tasks(tier):
